@@ -1493,3 +1493,123 @@ def name_report(g):
         local.add(d)
     walk(g, set(), ())
     return rep
+
+
+# --------------------------------------------------------------------------- toy-kernel reading (tie for TraceCF.creplay)
+
+TOY_P = 1000003
+
+
+class NoReading(Exception):
+    pass
+
+
+def _str_hash(s, k=1):
+    h = 0
+    for i in range(len(s) - 1, -1, -1):
+        h = (ord(s[i]) * (k + i) + h) % TOY_P
+    return h
+
+
+def _toy_mix(vs, j=1):
+    h = 0
+    for i in range(len(vs) - 1, -1, -1):
+        h = ((j + i) * (17 if vs[i] is None else vs[i]) + h) % TOY_P
+    return h
+
+
+def toy_sem(op, attrs, vs):
+    n = attrs.get("num_outputs")
+    if not isinstance(n, int) or isinstance(n, bool):
+        n = 2 if op in ("TopK", "add_mul", "neg_abs") else 1
+    h = (_str_hash(op) + _toy_mix(vs)) % TOY_P
+    return [(h + 7919 * i) % TOY_P for i in range(n)]
+
+
+def toy_replay(trace, info, lim=5):
+    """The harness's own reading of an executed trace (call mode) under the toy kernels of OV.Builder.TraceCF:
+    the Python trace function run on integers -- an If reads the branch its condition selects, a Loop iterates the
+    body, bodies see the enclosing values; None = no reading (Scan, a value used outside the scope it was made in)."""
+    env = {i: 1001 + k for k, (_n, _d, _s, i) in enumerate(trace["inputs"])}
+
+    def arg(a, env):
+        if a[0] == "v":
+            if a[1] not in env:
+                raise NoReading()
+            return env[a[1]]
+        if a[0] == "none":
+            return None
+        _t, _v, d, like = a
+        base = _str_hash(d["val"])
+        if like is None:
+            return base
+        if like not in env:
+            raise NoReading()
+        return toy_sem("CastLike", {}, [base, env[like]])[0]
+
+    def body(sb, outer, args):
+        if len(sb["ins"]) != len(args):
+            raise NoReading()
+        e2 = dict(outer)
+        for (_n, _d, _s, i), v in zip(sb["ins"], args):
+            e2[i] = v
+        run(sb["body"], e2)
+        if any(i not in e2 for i in sb["rets"]):
+            raise NoReading()
+        return [e2[i] for i in sb["rets"]]
+
+    def first_sub(s, key):
+        for k, sb in s["subs"]:
+            if k == key:
+                return sb
+        raise NoReading()
+
+    def run(steps, env):
+        for s in steps:
+            vs = [arg(a, env) for a in s["args"]]
+            if s["kind"] == "fn":
+                if s.get("exec") != "call":
+                    raise NoReading()
+                f = functions()[s["fn"]]
+                res = toy_sem(f["name"], {}, vs)
+                n = f["nout"] if s["outs"] is None else len(s["outs"])
+            else:
+                n = s["outs"] if isinstance(s["outs"], int) else len(s["outs"])
+                if s["op"] == "If":
+                    if len(vs) != 1 or vs[0] is None:
+                        raise NoReading()
+                    res = body(first_sub(s, "then_branch" if vs[0] % 2 == 1 else "else_branch"), env, [])
+                elif s["op"] == "Loop":
+                    if len(vs) < 2:
+                        raise NoReading()
+                    sb = first_sub(s, "body")
+                    st = [v for v in vs[2:] if v is not None]
+                    bounded = vs[0] is not None
+                    k = vs[0] % 4 if bounded else lim
+                    c = (vs[1] % 2 == 1) if vs[1] is not None else True
+                    i = 0
+                    while c:
+                        if k == 0:
+                            if bounded:
+                                break
+                            raise NoReading()
+                        r = body(sb, env, [i, 1 if c else 0] + st)
+                        if not r or len(r) - 1 != len(st):
+                            raise NoReading()
+                        c, st = (r[0] % 2 == 1), r[1:]
+                        k -= 1
+                        i += 1
+                    res = st
+                elif s["subs"]:
+                    raise NoReading()
+                else:
+                    res = toy_sem(s["op"], s["attrs"], vs)
+            if len(res) != n or len(s["ids"]) != n:
+                raise NoReading()
+            for i, v in zip(s["ids"], res):
+                env[i] = v
+    try:
+        run(info["steps"], env)
+        return [env[i] for i in trace["outputs"]]
+    except (NoReading, KeyError):
+        return None
